@@ -123,25 +123,26 @@ Fixpoint c06_cmats (k d : nat) (qs : list Qc) : list (cmat QF) * list Qc :=
 Definition cfreeze (m n : nat) (A : cmat QF) : cmat QF := freeze (0%Qc, 0%Qc) m n A.
 
 (* the comp-basis HS matrix of one outcome, from the kernel output:
-   mode 0: S (2 d d) ; mode 1 (the code) / 10 (as coded BEFORE fix povm-generate-mprocess-mode1-eigenvectors) /
-   11 (docstring formula without grouping): w (d) ++ V (2 d d) *)
-Definition c06_cb (d : nat) (mode : Z) (qs : list Qc) : cmat QF :=
+   mode 0: S (2 d d) ; mode 1 (the code: grouping tolerance tol) / 12 (before fix povm-generate-mprocess-mode1-eigenspace-tolerance: tol = 0) /
+   10 (before fix povm-generate-mprocess-mode1-eigenvectors: rows, no conjugate) / 11 (docstring formula without grouping): w (d) ++ V (2 d d) *)
+Definition c06_cb (d : nat) (mode : Z) (tol : Qc) (qs : list Qc) : cmat QF :=
   if (mode =? 0)%Z then gm_mode0_cb QF d (c06_cmat d d qs)
   else let w := vec_of_list 0%Qc (firstn d qs) in let V := c06_cmat d d (skipn d qs) in
-       if (mode =? 1)%Z then gm_mode1_cb QF d w V
+       if (mode =? 1)%Z then gm_mode1_cb QF d tol w V
+       else if (mode =? 12)%Z then gm_mode1_cb QF d 0%Qc w V
        else if (mode =? 10)%Z then gm_mode1_cb_prefix QF d w V else gm_mode1_cb_doc QF d w V.
-(* c06.gm_cb : zs = [d; mode] ; qs = kernel output -> interleaved complex d^2 x d^2 *)
+(* c06.gm_cb : zs = [d; mode] ; qs = tol :: kernel output -> interleaved complex d^2 x d^2 *)
 Definition op_gm_cb : opfun := fun zs qs =>
-  match zs with
-  | [d; mode] => let d' := Z.to_nat d in Ok (c06_flat_cmat (d' * d') (d' * d') (c06_cb d' mode qs))
-  | _ => Err (-1) end.
-(* c06.gm_gb : zs = [d; mode] ; qs = eps :: basis (d*d matrices, 2 d d each) ++ kernel output -> real HS (general basis) or Err 26 *)
+  match zs, qs with
+  | [d; mode], tol :: qr => let d' := Z.to_nat d in Ok (c06_flat_cmat (d' * d') (d' * d') (c06_cb d' mode tol qr))
+  | _, _ => Err (-1) end.
+(* c06.gm_gb : zs = [d; mode] ; qs = eps (= Settings.get_atol(): truncate_hs threshold AND mode-1 grouping tolerance) :: basis (d*d matrices, 2 d d each) ++ kernel output -> real HS (general basis) or Err 26 *)
 Definition op_gm_gb : opfun := fun zs qs =>
   match zs, qs with
   | [d; mode], eps :: qr => let d' := Z.to_nat d in let n := (d' * d')%nat in
       let '(Bs, rest) := c06_cmats n d' qr in
       let B := fun a => nth a Bs (fun _ _ => (0%Qc, 0%Qc)) in
-      let Hcb := cfreeze n n (c06_cb d' mode rest) in
+      let Hcb := cfreeze n n (c06_cb d' mode eps rest) in
       let U := cfreeze n n (c06_umat QF d' B) in
       let UH := cfreeze n n (mmul n U Hcb) in
       let H := cfreeze n n (mmul n UH (cadj U)) in
